@@ -478,10 +478,6 @@ WIDE_GEN = dict(MinParams=1, MaxParams=3, Locs='{"same", "plain", "alias"}')
 NSLICES = 16
 
 
-def any_one(item):
-  return world_one(item) if isinstance(item, dict) else one(item)
-
-
 def _t(t):
   """Compact rendering of a type term for keys and messages."""
   if t[0] in ("cls", "tparam"):
@@ -570,7 +566,18 @@ def main():
   run.put("upstream_programs", len(srcs))
   run.put("worlds", len(worlds))
   os.makedirs(os.path.join(common.VERIF, "build"), exist_ok=True)
-  results = pyt.batch(any_one, worlds + srcs, procs=8, chunksize=2)
+  # one pool of booted workers, two batches (timed separately: the worlds are the newer part)
+  import multiprocessing as mp
+  import time
+  run.put("wall_generation_s", round(time.time() - run.t0, 1))
+  with mp.get_context("spawn").Pool(8, initializer=pyt._init_worker, initargs=(boot.REPO, 0)) as pool:  # pylint: disable=protected-access
+    t1 = time.time()
+    results = pool.map(world_one, worlds, chunksize=2) if worlds else []
+    run.put("wall_worlds_s", round(time.time() - t1, 1))
+    t1 = time.time()
+    results += pool.map(one, srcs, chunksize=2) if srcs else []
+    run.put("wall_programs_s", round(time.time() - t1, 1))
+  t1 = time.time()
   cases = []
   keep = []
   for res in results:
@@ -603,6 +610,7 @@ def main():
   common.require(cases, "no case")
   nv, bad, r = tlc.validate_cases("TraceC06", cases, cfg=TRACE_CFG, timeout=3000, heap="6g")
   common.require(bad is None, "TraceC06 invariant cannot fail")
+  run.put("wall_validation_s", round(time.time() - t1, 1))
   nslots = sum(len(c["slots"]) for c in cases if c["fam"] == "prog")
   judged = {st["i"]: st["judged"] for st in tlc.parse_cases(r.out, "STAT")}
   wcases = [(n, c) for n, c in enumerate(cases, 1) if c["fam"] in ("dag", "gen")]
